@@ -454,6 +454,22 @@ def render_fragment(rng, g, nodes, desc, start=None, opts=None):
     return dict(text=text, atoms=pre, tokens=tokens, start=start)
 
 
+def with_explicit_hydrogens(rng, g, tokens, p=0.4, annotations=('w=0.5', '0.2', 'note=a')):
+    """text of a rendered fragment in which some hydrogens of atoms written without brackets are spelled out as
+    '([H])' / '([H;w=0.5])' right behind their atom (and its ring digits / descriptors)"""
+    out, k = [], 0
+    while k < len(tokens):
+        t = tokens[k]
+        out.append(t)
+        k += 1
+        if t[0] == 'atom' and not t[1].startswith('[') and g.nodes[t[2]]['hcount'] >= 1 and not g.nodes[t[2]].get('aromatic') and rng.random() < p:
+            while k < len(tokens) and tokens[k][0] in ('ring', 'desc') and tokens[k][2] == t[2]:
+                out.append(tokens[k])
+                k += 1
+            out += [('open',), ('atom', '[H;%s]' % rng.choice(annotations) if rng.random() < 0.5 else '[H]', ('H', t[2])), ('close',)]
+    return ''.join('(' if x[0] == 'open' else ')' if x[0] == 'close' else x[1] for x in out)
+
+
 def clean_text(tokens):
     return ''.join('(' if t[0] == 'open' else ')' if t[0] == 'close' else t[1] for t in tokens if t[0] != 'desc')
 
